@@ -36,7 +36,8 @@ assumptions = [
     "libc memcpy/memmove/memchr/malloc/realloc behave as specified; allocation never fails in the harness runs",
     "the encoder window handed to the code is exactly the granted size (heap block of that size under AddressSanitizer)",
     "python3 executing /repo/mpt.py:encode_cobs is the Python client (run once per generation, result embedded in the op line)",
-    "message deletion (base->iov_base == NULL) and separator patterns of mpt_encode_string are outside the property and not modelled",
+    "separator patterns (scratch != 0) and non-zero delimiters (_ctx != 0) of mpt_encode_string are not reachable through the library (C01.cmd_encoder_closed) and not modelled; message deletion (base->iov_base == NULL) is modelled (encodeCobsDel / encodeStringDel, C01.delete_restores, delete_frame)",
+    "the raw path of mpt_array_push (no encoder installed) is not a framing and not part of this property",
 ]
 trusted = ["hand-written models MptModel/Impl/Encode.lean (encoders, array push) tied to mptcore/convert/encode_*.c, "
            "mptcore/array/array_push.c by harness/drv_codec.c (differential execution)",
